@@ -361,6 +361,9 @@ func (c *clipperBase) executeInternal(ct ClipType, fillRule FillRule) {
 	if c.succeeded {
 		c.processHorzJoins()
 	}
+	if verifOn {
+		verifOutRecSnapshot(c)
+	}
 }
 
 func (c *clipperBase) doTopOfScanbeam(y int64) {
@@ -484,6 +487,9 @@ func (c *clipperBase) processIntersectList() {
 			c.intersectList[i], c.intersectList[j] = c.intersectList[j], c.intersectList[i]
 		}
 		node := c.intersectList[i]
+		if verifOn {
+			verifIntersect(c, node)
+		}
 		c.intersectEdges(node.edge1, node.edge2, node.pt)
 		c.swapPositionsInAEL(node.edge1, node.edge2)
 
